@@ -147,7 +147,7 @@ def inherit_instance(tier, seed=0):
     ops.append({"op": "set_ref", "s": ["A"], "n": "o", "v": ["ce", ["A"], [], "x"], "mode": "auto", "via": "set_ref"})
     ops.append({"op": "set_ref", "s": ["B"], "n": "o", "v": ["sp", ["D"], [], ""], "mode": "relative", "via": "set_ref"})
     ops.append({"op": "set_ref", "s": ["B"], "n": "o", "v": ["sp", ["B"], [], ""], "mode": "absolute", "via": "set_ref"})
-    ops.append({"op": "set_ref", "s": ["C"], "n": "x", "v": ["int", 5, [], ""], "mode": "auto", "via": "set_ref"})
+    ops.append({"op": "new_cells", "s": ["C"], "c": "o", "rec": {"f": "X2", "cached": True, "an": 0}})
     ops.append({"op": "del_ref", "s": ["A"], "n": "o"})
     if tier == "quick":
         rng.shuffle(ops)
